@@ -28,6 +28,9 @@ def second_config(ctx, mod):
     ctx2 = engine.Ctx(ctx.prop, F2, 'thorough')
     mod.run(ctx2)
     anchors.resolve_all(ctx.F)
+    # instance floors were counted on the default configuration (they include the pyo3 layer): not comparable here
+    ctx2.findings = [f for f in ctx2.findings if f.instance != 'FLOOR']
+    ctx2.obligations = [o for o in ctx2.obligations if o['instance'] != 'FLOOR']
     out = {'cfg': 'nopython', 'facts': os.path.basename(p), 'obligations': len(ctx2.obligations),
            'violated': [f.key for f in ctx2.findings]}
     seen = {f.key for f in ctx.findings}
